@@ -384,3 +384,72 @@ def binding_selfcheck_trace(module, trace_path, mutate, *, cfg=None, env=None):
     if tr.accepted:
         raise ToolError(f"binding self-check failed: {module} accepted a corrupted trace (line {idx})")
     return {"corrupted_line": idx, "rejected_at": tr.rejected_at}
+
+
+# --------------------------------------------------------------------------
+# helpers shared by the per-property checks
+# --------------------------------------------------------------------------
+def cfg_with(wd, base, name, repl):
+    """Copy spec/<base> to <wd>/<name> with textual replacements (constants for a tier)."""
+    with open(os.path.join(SPEC, base)) as f:
+        text = f.read()
+    for a, b in repl:
+        if a not in text:
+            raise ToolError(f"cfg template {base}: '{a}' not found")
+        text = text.replace(a, b)
+    path = os.path.join(wd, name)
+    with open(path, "w") as f:
+        f.write(text)
+    return path
+
+
+def trace_rounds(c, trace_module, vh_module, seeds, n, mutate=None, *, xmx="4g", cfg=None, extra_args=(), timeout=1200, env=None):
+    """Drive the real code with each seed, validate the recorded trace against trace_module."""
+    wd = workdir(c.prop)
+    for i, sd in enumerate(seeds):
+        tp = os.path.join(wd, f"trace-{vh_module}-{i}.ndjson")
+        summ = vh(["drive", vh_module, "--seed", sd, "--n", n, "--out", tp] + list(extra_args), timeout=timeout)
+        tr = validate_trace(trace_module, tp, xmx=xmx, cfg=cfg, timeout=timeout, env=env)
+        c.add_tlc(tr.run, f"trace validation {trace_module} seed {sd}")
+        if tr.accepted:
+            c.add_harness(summ, f"driven trace {vh_module} seed {sd}", traces=1)
+        else:
+            ev = trace_line(tp, tr.rejected_at)
+            c.add_harness(summ, f"driven trace {vh_module} seed {sd} (rejected)")
+            kind = ev.get("ev") if isinstance(ev, dict) else "?"
+            c.violation(f"trace:{vh_module}:{kind}",
+                        f"{trace_module} cannot explain line {tr.rejected_at} of the recorded trace: {json.dumps(ev)[:600]}",
+                        {"trace_seed": sd, "line": tr.rejected_at, "event": ev, "drive": vh_module, "n": n})
+        if i == 0 and tr.accepted and mutate:
+            c.cov.setdefault("binding_selfcheck_trace", {})[trace_module] = \
+                binding_selfcheck_trace(trace_module, tp, mutate, cfg=cfg, env=env)
+
+
+def selfcheck_replay(c, vh_module, cases, corrupt, label):
+    """Corrupt one expectation and require the harness to report it."""
+    wd = workdir(c.prop)
+    bad = corrupt(cases)
+    if bad is None:
+        raise ToolError(f"binding self-check ({label}): no case to corrupt")
+    sb = vh(["replay", vh_module, write_ndjson(os.path.join(wd, "corrupt.ndjson"), [bad])])
+    if not sb["violations"]:
+        raise ToolError(f"binding self-check failed ({label}): corrupted expectation not detected")
+    c.cov.setdefault("binding_selfcheck_replay", {})[label] = "corrupted expectation detected"
+
+
+def generic_replay(prop, vh_module):
+    def _replay(path):
+        with open(path) as f:
+            v = json.load(f)
+        case = v.get("case") or {}
+        inner = case.get("case", case) if isinstance(case, dict) else None
+        if isinstance(inner, dict) and ("op" in inner or "w" in inner):
+            s = vh(["replay", vh_module, write_ndjson(os.path.join(workdir(prop), "one.ndjson"), [inner])])
+            print(json.dumps(s["violations"], indent=1))
+            if s["violations"]:
+                print(f"VIOLATION property={prop} replay={path}")
+                return 1
+            return 0
+        print(json.dumps(v, indent=1))
+        return 0
+    return _replay
